@@ -204,7 +204,16 @@ class Exec:
             inner = self.iter_item(st, itv[1], loopid)
             if inner is None:
                 return None
-            return self.call_closure(st, itv[2], [inner])
+            # the one symbolic item stands for every element: the closure must be pure (run on a fork, nothing may change)
+            s2 = st.fork()
+            v = self.call_closure(s2, itv[2], [inner])
+            if s2.steps != st.steps:
+                raise Unsupported("the closure of an Iterator::map steps a component")
+            for k_, v_ in s2.store.m.items():
+                if st.store.m.get(k_) != v_ and (isinstance(k_[0], str) or self._try_read(st, k_) is not None):
+                    raise Unsupported("the closure of an Iterator::map writes %s: it runs once per element, not once" % pstr(k_))
+            st.asserts = s2.asserts
+            return v
         return None
 
     # ---------- iterator adaptors consumed by fold / sum / for_each ----------
@@ -261,7 +270,7 @@ class Exec:
         before = dict(s2.store.m)
         new = step(s2, acc_sym, item)
         for k, v in s2.store.m.items():
-            if before.get(k) != v and (isinstance(k[0], str) or k in before):
+            if before.get(k) != v and (isinstance(k[0], str) or k in before or self._try_read(st, k) is not None):
                 raise Unsupported("fold closure writes to something other than its accumulator (%s)" % pstr(k))
         if s2.steps != st.steps:
             raise Unsupported("fold closure steps a component")
@@ -334,10 +343,28 @@ class Exec:
 
         def lvname(k):
             return ".".join(["L%d" % k[0][2]] + [str(x) for x in k[1:]])
-        s3 = st.fork()
-        for k in changed:
-            s3.store.write(k, ("lv", loopid, lvname(k)))
-        self.call_closure(s3, clo, [item])
+        for _round in range(8):
+            s3 = st.fork()
+            for k in changed:
+                s3.store.write(k, ("lv", loopid, lvname(k)))
+            self.sites = list(saved_sites)
+            self.call_closure(s3, clo, [item])
+            more = {}
+            for k, v in s3.store.m.items():   # discovery to a fixpoint (`a = b; b = x` with a0 == b0)
+                if k in changed or st.store.m.get(k) == v:
+                    continue
+                old = self._try_read(st, k)
+                if old is None and not isinstance(k[0], str):
+                    continue
+                if isinstance(k[0], str):
+                    raise Unsupported("for_each closure writes to state other than a slice fill (%s)" % pstr(k))
+                if v != old:
+                    more[k] = old
+            if not more:
+                break
+            changed.update(more)
+        else:
+            raise Unsupported("for_each: the set of loop-carried places does not settle")
         summaries = {}
         for k, old in changed.items():
             lv = ("lv", loopid, lvname(k))
@@ -1277,7 +1304,8 @@ class Exec:
         keys = set()
         for _, _, s2 in live:
             for k, v in s2.store.m.items():
-                if isinstance(k[0], str) and st.store.m.get(k) != v:
+                # state, and captured locals of the enclosing frames (anything that existed before the closure ran)
+                if st.store.m.get(k) != v and (isinstance(k[0], str) or self._try_read(st, k) is not None):
                     keys.add(k)
         for k in keys:
             def cur(s_):
@@ -1612,8 +1640,8 @@ class Exec:
             if ev is not True and s2.steps != st.steps:
                 raise Unsupported("a component is stepped inside a conditionally executed closure")
             if ev is not True:
-                for k_, v_ in s2.store.m.items():
-                    if isinstance(k_[0], str) and st.store.m.get(k_) != v_:
+                for k_, v_ in list(s2.store.m.items()):
+                    if st.store.m.get(k_) != v_ and (isinstance(k_[0], str) or self._try_read(st, k_) is not None):
                         old_ = self._try_read(st, k_)
                         st.store.write(k_, mk_gamma(c, v_, old_ if old_ is not None else ("pre", pstr(k_))))
                 st.asserts = s2.asserts
